@@ -10,7 +10,6 @@ package ice
 import (
 	"errors"
 	"fmt"
-	"io"
 	"net"
 	"net/netip"
 	"os"
@@ -378,7 +377,7 @@ func (c *vfConn) ReadMsgUDP([]byte, []byte) (int, int, int, *net.UDPAddr, error)
 
 func (c *vfConn) WriteTo(p []byte, addr net.Addr) (int, error) {
 	if c.isClosed() {
-		return 0, io.ErrClosedPipe
+		return 0, net.ErrClosed // what a closed UDP socket reports ("use of closed network connection")
 	}
 	var dstAP netip.AddrPort
 	switch ta := addr.(type) {
@@ -427,7 +426,7 @@ func (c *vfConn) WriteTo(p []byte, addr net.Addr) (int, error) {
 					t.Stop()
 				}
 
-				return 0, io.ErrClosedPipe
+				return 0, net.ErrClosed
 			case <-ch:
 			case <-tm:
 			}
